@@ -169,4 +169,37 @@ theorem encContentValueW_spec (c : WCfg) (parent : Option Name) (s : Bytes) (st 
             · cases hdr
           | none => exact tail h2
 
+
+/-- `parse_text`: leaves only; neither code page nor the string table changes. -/
+theorem encTextW_spec (c : WCfg) (parent : Option Name) (s : Bytes) (st st' : WSt) (hinv : StrInv st)
+    (h : encTextW c parent s st = .ok st') :
+    ∃ items, (∀ it ∈ items, Leaf c st.strtbl it) ∧ st'.out = st.out ++ serItems items ∧
+      st'.tagPage = st.tagPage ∧ st'.attrPage = st.attrPage ∧ st'.strtbl = st.strtbl ∧
+      st'.strtblLen = st.strtblLen := by
+  have hA : ∀ k s', ({ st with textNo := st.textNo + 1 } : WSt).aliasWrite k s' = { st with textNo := st.textNo + 1 } :=
+    fun k s' => aliasWrite_eq _ k s' hinv.noAlias
+  have nil : ∀ st1 : WSt, st1.out = st.out → st1.tagPage = st.tagPage → st1.attrPage = st.attrPage →
+      st1.strtbl = st.strtbl → st1.strtblLen = st.strtblLen →
+      ∃ items, (∀ it ∈ items, Leaf c st.strtbl it) ∧ st1.out = st.out ++ serItems items ∧
+      st1.tagPage = st.tagPage ∧ st1.attrPage = st.attrPage ∧ st1.strtbl = st.strtbl ∧
+      st1.strtblLen = st.strtblLen :=
+    fun st1 h1 h2 h3 h4 h5 => ⟨[], (by intro it hit; cases hit), by rw [serItems_nil, List.append_nil, h1], h2, h3, h4, h5⟩
+  unfold encTextW at h
+  simp only [hA, ite_self] at h
+  split at h
+  · injection h with h; subst h
+    exact ⟨[.opaque s], by intro it hit; simp only [List.mem_cons, List.mem_nil_iff, or_false] at hit; subst hit; exact .opq s,
+      by rw [serItems_cons, serItems_nil, serItem_opq]; simp, rfl, rfl, rfl, rfl⟩
+  · split at h
+    · injection h with h; subst h
+      exact nil _ rfl rfl rfl rfl rfl
+    · split at h
+      · split at h
+        · cases h
+        · injection h with h; subst h
+          exact nil _ rfl rfl rfl rfl rfl
+      · obtain ⟨items, hst, hleaf⟩ := encContentValueW_spec c parent _ _ st' (nulFree_cstrOf _) h
+        subst hst
+        exact ⟨items, hleaf, rfl, rfl, rfl, rfl, rfl⟩
+
 end Wbxml.Lemmas.EncW
